@@ -146,6 +146,27 @@ class Sinh(Family):
         return torch.randn(B, self.d, generator=gen)
 
 
+def expm(E):
+    """Matrix exponential by scaling-and-squaring of a 24-term Taylor polynomial (float64, ~1e-16 relative).
+
+    torch.matrix_exp picks a low polynomial degree for small norms and is then only accurate to ~5e-12 (measured: norm
+    0.039 -> error 4.9e-12), which is above the size of the order-2.5 mean residuals C02 has to resolve."""
+    nrm = float(E.abs().sum(-1).max())
+    s = 0
+    while nrm > 0.25:
+        nrm *= 0.5
+        s += 1
+    X = E / (2.0 ** s)
+    out = torch.eye(E.size(-1), dtype=E.dtype)
+    term = torch.eye(E.size(-1), dtype=E.dtype)
+    for n in range(1, 25):
+        term = term @ X / n
+        out = out + term
+    for _ in range(s):
+        out = out @ out
+    return out
+
+
 class LinearCommuting(Family):
     """dy = A y dt + sum_k B_k y o dW_k with commuting, NON-symmetric matrices: y = expm(A tau + sum B_k W_k) y0.
 
@@ -197,7 +218,7 @@ class LinearCommuting(Family):
         for b in range(y0.size(0)):
             pick = (lambda Mx: Mx[b]) if self.batch is not None else (lambda Mx: Mx)
             E = pick(A) * (t - t0) + sum(pick(Bs[k]) * W[b, k] for k in range(self.m))
-            out.append(torch.matrix_exp(E) @ y0[b])
+            out.append(expm(E) @ y0[b])
         return torch.stack(out)
 
 
